@@ -11,13 +11,32 @@
 static ABTI_rwlock RW;
 static ABTI_thread D1;
 static size_t r_seen; static int w_seen, waits;
-static void env_step(void) {}
+/* the current holder (a writer, or one of the readers) may perform its complete real ABT_rwlock_unlock at any atomic instruction of
+ * the focus at which the monitor mutex is free -- in particular in the window in which the focus has released the mutex but is
+ * not yet on the wait-list (the real broadcast takes the condition variable's lock, which the focus holds there) */
+static int env_unlocked;
+static void env_step(void)
+{
+#if OP != 2
+    if (env_unlocked || RW.mutex.lock.val.val != 0 || !(RW.write_flag || RW.reader_count > 0) || !nondet_bool()) return;
+    env_unlocked = 1; vr_env_noblock = 1; as_agent(-1);
+    int rc = ABT_rwlock_unlock((ABT_rwlock)&RW);
+    __CPROVER_assert(rc == ABT_SUCCESS, "holder's unlock succeeds");
+    vr_env_noblock = 0; as_agent(0);
+    r_seen = RW.reader_count; w_seen = RW.write_flag;
+#endif
+}
 static void vr_stuck(const char *w) { __CPROVER_assert(0, "monitor step: no stuck state expected"); }
 static void vr_after_switch(int k)
 {
     /* the caller is parked on the rwlock's condition variable with the monitor mutex released */
     __CPROVER_assert(RW.mutex.lock.val.val == 0, "a blocked locker has released the monitor mutex");
     waits++;
+#if OP == 0
+    __CPROVER_assert(!(env_unlocked && RW.write_flag == 0), "lost wake-up: a reader parks although the holder has already unlocked and no writer holds the lock (its unlock ran between the release of the monitor mutex and the enqueue, and woke nobody)");
+#elif OP == 1
+    __CPROVER_assert(!(env_unlocked && RW.write_flag == 0 && RW.reader_count == 0), "lost wake-up: a writer parks although the last holder has already unlocked (its unlock woke nobody)");
+#endif
     size_t r = nondet_size_t(); int w = nondet_bool();
     __CPROVER_assume(!(w && r > 0));
     RW.reader_count = r; RW.write_flag = w; r_seen = r; w_seen = w;     /* other threads acted */
